@@ -496,3 +496,70 @@ Proof.
     + intros H. contradiction H. reflexivity.
 Qed.
 End InnerAN.
+
+(* ---- the same run in either mode (fail-fast or marking) when every label is accepted: for ToUnicode / C12 ---- *)
+Lemma check_hyphens_free ff a c he : hyphen_free a c = true -> check_hyphens ff a c he = SOk (c, he).
+Proof.
+  unfold check_hyphens, hyphen_free. intros H.
+  apply andb_true_iff in H. destruct H as [H H3]. apply andb_true_iff in H. destruct H as [H1 H2].
+  apply negb_true_iff in H1. apply negb_true_iff in H2.
+  destruct c as [|f r].
+  - cbn [sbind last_opt]. destruct a; [reflexivity|]. reflexivity.
+  - rewrite H1. cbn [sbind]. destruct (last_opt (f :: r)) as [x|]; [rewrite H2|]; cbn [sbind];
+      (destruct a; [reflexivity|]); cbn [orb] in H3; apply negb_true_iff in H3; rewrite H3; reflexivity.
+Qed.
+
+Section AnyMode.
+Variable A : adapter.
+Variable cfg : bool.
+Variable ff : bool.
+Variable deny : N.
+Variable hy : hyphens.
+Hypothesis HU : DenyUpper deny.
+Hypothesis HL : LdhFree deny.
+
+Lemma label_nonempty_good label db ap : an_label label -> lab_acc deny hy label = true ->
+  label_nonempty A cfg ff hy deny label db false ap = SOk (db ++ cmap deny label, false, ap ++ [MixedCaseAscii label]).
+Proof.
+  intros [Ha Hp] Hacc. rewrite label_nonempty_eq. unfold split_ascii_fast_path_prefix. rewrite (ascii_position label Ha).
+  rewrite Hp. unfold complexT. unfold lab_acc, cmap in Hacc. apply andb_true_iff in Hacc. destruct Hacc as [Hf Hh].
+  apply negb_true_iff in Hf.
+  rewrite (scan_mark_none ff is_fffd _ false Hf). cbn [sbind].
+  destruct (hy_is_allow hy); cbn [negb orb] in *; [reflexivity|].
+  rewrite (check_hyphens_free ff _ _ false Hh). reflexivity.
+Qed.
+
+Lemma label_step_good label s : good_label deny hy label -> i_he s = false ->
+  label_step A cfg ff hy deny label s = SOk (an_next deny label s).
+Proof.
+  intros (Hl & _ & Hacc) Hs. unfold label_step, an_next.
+  destruct (i_inpre s && is_passthrough_ascii_label label); [reflexivity|].
+  destruct label as [|b r].
+  - rewrite Hs. cbn [cmap map]. rewrite app_nil_r. reflexivity.
+  - rewrite Hs. rewrite (label_nonempty_good (b :: r) _ _ Hl Hacc). reflexivity.
+Qed.
+
+Lemma labels_loop_good labels : forall s, Forall (good_label deny hy) labels -> i_he s = false ->
+  labels_loop A cfg ff hy deny labels s = SOk (an_end deny labels s).
+Proof.
+  induction labels as [|l r IH]; intros s Hls Hs; cbn [labels_loop an_end]; [reflexivity|].
+  inversion Hls as [|? ? Hl Hr]; subst. rewrite (label_step_good l s Hl Hs). cbn [sbind].
+  apply IH; [exact Hr|apply an_next_he; exact Hs].
+Qed.
+
+(* on an accepted name of the class the marking run and the fail-fast run of process_inner return the same *)
+Theorem process_inner_an_acc d : bytes d -> AN d -> forallb (lab_acc deny hy) (split_on DOT d) = true ->
+  process_inner A cfg ff hy deny d = an_inner deny hy d.
+Proof.
+  intros Hb Han Hacc. unfold process_inner, an_inner. destruct (fast_tier d d) as [tail|] eqn:Ef; [|reflexivity].
+  destruct (tail_labels deny hy HL d tail Hb Ef) as (front & Hs & _).
+  unfold AN in Han. rewrite Hs in Han, Hacc. apply Forall_app in Han. destruct Han as [_ Han].
+  rewrite forallb_app in Hacc. apply andb_true_iff in Hacc. destruct Hacc as [_ Hacc]. rewrite Hacc.
+  pose proof (good_labels deny hy _ Han (split_on_nodot tail) Hacc) as Hg.
+  unfold process_innermost. fold (s_init d tail).
+  rewrite (labels_loop_good (split_on DOT tail) (s_init d tail) Hg eq_refl).
+  pose proof (an_end_inv deny hy (split_on DOT tail) (s_init d tail) Hg (AnInv_init deny hy d tail)) as HI.
+  destruct (AnInv_db deny hy HU (an_end deny (split_on DOT tail) (s_init d tail)) HI) as (Hasc & _ & _).
+  rewrite (is_bidi_ascii A cfg _ Hasc). cbv zeta. rewrite (proj1 HI). reflexivity.
+Qed.
+End AnyMode.
